@@ -31,13 +31,13 @@ ASSUMPTIONS = ["every variable of the description is selected (the statement's p
 
 def plan(tier, seed):
     n = 220 if tier == "quick" else 2500
-    return [{"n": n, "sub": i} for i in range(16)]
+    return [{"n": n, "sub": i} for i in range(16)] + [{"kind": "ix", "n": 40 if tier == "quick" else 400, "sub": 900 + i} for i in range(16)]
 
 
 def floors(tier):
     return {"distinct_nontrivial": 500, "cls:n=0": 300, "cls:n=1": 300, "cls:n>=2": 300, "cls:form:entity": 200,
             "cls:form:set_of": 300, "cls:form:predform": 100, "cls:predform_with_further_properties": 40, "cls:ambient:query": 100, "cls:ambient:rule": 100, "cls:caching_off": 200,
-            "cls:equal_valued_distinct_objects": 300, "cls:domain_without_instances_of_the_type": 100, "cls:solutions_equal_by_value": 50, "cls:earlier_query_on_the_same_variables": 300, "cls:no_domain_registry_with_subclass_instances": 150,
+            "cls:equal_valued_distinct_objects": 300, "cls:domain_without_instances_of_the_type": 100, "cls:solutions_equal_by_value": 50, "cls:feature_interaction_description": 300, "cls:earlier_query_on_the_same_variables": 300, "cls:no_domain_registry_with_subclass_instances": 150,
             "re:The(@.*)?\\.enter": 0}
 
 
@@ -46,7 +46,60 @@ def _count(case, world):
     return sum(1 for asg in itertools.product(*doms) if C.holds(case["cond"], asg))
 
 
+def check_ix_the_case(case, ctx):
+    """the(...) over a feature-interaction description (eqlmon/ix.py) in which every variable is selected"""
+    from entity_query_language import MultipleSolutionFound, NoSolutionFound
+    from entity_query_language.cache_data import enable_caching, disable_caching
+    from .. import ix
+    c = case["ix"]
+    es, ps = ix.build_world(c["world"])
+    exp = ix.expected(c, es, ps)
+    n = len(exp)
+    ctx.cls("cls:feature_interaction_description")
+    ctx.cls("cls:n=0" if n == 0 else "cls:n=1" if n == 1 else "cls:n>=2")
+    ctx.nontrivial()
+    want = ["none"] if n == 0 else ["multiple"] if n >= 2 else ["value", list(exp[0])]
+    (enable_caching if c["caching"] else disable_caching)()
+    outs = []
+    try:
+        q, enc = ix.build(c, es, ps, quant="the")
+        for _ in range(3):
+            try:
+                outs.append(["value", list(enc(q.evaluate()))])
+            except MultipleSolutionFound:
+                outs.append(["multiple"])
+            except NoSolutionFound:
+                outs.append(["none"])
+            except Exception as e:
+                outs.append(["EXC", f"{type(e).__name__}: {e}"[:200]])
+    finally:
+        enable_caching()
+    for rep, o in enumerate(outs):
+        if o != want:
+            ctx.fail("OUTCOME", {"evaluation": rep + 1, "solutions": n, "expected": want, "observed": o, "all_evaluations": outs,
+                                 "query": {k: c[k] for k in ("c0", "c1", "atoms", "sel")}})
+            break
+    ctx.sample({"feature_interaction": {k: c[k] for k in ("c0", "c1", "atoms", "sel")}, "solutions": n, "outcomes": outs})
+
+
 def cases(spec, ctx):
+    if spec.get("kind") == "ix":
+        from .. import ix
+        for i in range(spec["n"]):
+            rng = ctx.rng(spec["sub"], i)
+            want = i % 3
+            best = None
+            for _ in range(60):     # rejection sampling on the number of solutions, every variable selected
+                c = ix.gen_case(rng)
+                if not ix.all_selected(c):
+                    continue
+                es, ps = ix.build_world(c["world"])
+                best = c
+                if min(len(ix.expected(c, es, ps)), 2) == want:
+                    break
+            if best is not None:
+                yield {"ix": best}
+        return
     for i in range(spec["n"]):
         rng = ctx.rng(spec["sub"], i)
         want = i % 3
@@ -170,6 +223,8 @@ def run(case, world):
 
 
 def check_case(case, ctx):
+    if "ix" in case:
+        return check_ix_the_case(case, ctx)
     world = D.build_world(case["world"])
     exp_rows = [] if case.get("domain_override") else multi.expected(case, world)
     if case.get("domain_override"):
